@@ -708,6 +708,18 @@ static void create_one(const char *kind, int Fs, int nch, int a, int b, const un
    oflush();
 }
 
+/* opus_encoder_init / opus_decoder_init on caller-provided memory (create repeats the argument check, so a check dropped
+   from init alone is only visible here) */
+static void init_one(int enc, int Fs, int nch, int app)
+{
+   int ret; void *mem = malloc(opus_encoder_get_size(2) + opus_decoder_get_size(2));
+   if (enc) printf("I ctl create encinit %d %d %d\n", Fs, nch, app); else printf("I ctl create decinit %d %d\n", Fs, nch);
+   fflush(stdout);
+   ret = enc ? opus_encoder_init((OpusEncoder *)mem, Fs, nch, app) : opus_decoder_init((OpusDecoder *)mem, Fs, nch);
+   printf("O %s\n", verr(ret));
+   free(mem);
+}
+
 static void run_create(int level)
 {
    static const int fsv[] = {8000, 12000, 16000, 24000, 48000, 0, -1, 7999, 8001, 11025, 22050, 32000, 44100, 47999, 48001, 96000, 192000, INT_MAX, INT_MIN};
@@ -717,6 +729,8 @@ static void run_create(int level)
    for (i = 0; i < (int)(sizeof(fsv) / sizeof(int)); i++) for (j = 0; j < (int)(sizeof(chv) / sizeof(int)); j++) {
       for (k = 0; k < (int)(sizeof(appv) / sizeof(int)); k++) for (f = -1; f <= 1; f++) create_one("enc", fsv[i], chv[j], 0, 0, NULL, appv[k], f);
       for (f = -1; f <= 1; f++) create_one("dec", fsv[i], chv[j], 0, 0, NULL, 0, f);
+      for (k = 0; k < (int)(sizeof(appv) / sizeof(int)); k++) init_one(1, fsv[i], chv[j], appv[k]);
+      init_one(0, fsv[i], chv[j], 0);
    }
    {  /* multistream: argument grid x a few mappings */
       static const int nchv[] = {1, 2, 3, 4, 0, -1, 255, 256};
@@ -847,6 +861,34 @@ static void run_honour(uint64_t seed, long cases)
    }
 }
 
+/* Deterministic corpus case (defect repaired by 88264869): OPUS_SET_FORCE_CHANNELS(1) in the middle of a
+   SILK-DTX silence run on a stereo encoder; before the repair every other packet stayed a coded stereo packet. */
+static void run_honourdtx(void)
+{
+   int sw;
+   for (sw = 41; sw <= 59; sw += 6) {
+      int err, i, j, Fs = 16000, N = 320; unsigned s = 1; static opus_int16 pcm[320 * 2]; static unsigned char out[1500];
+      OpusEncoder *e = opus_encoder_create(Fs, 2, OPUS_APPLICATION_VOIP, &err);
+      printf("I ctl honour %d 2 2048 4016:1,4010:5,4002:24000,4008:1103,4022:2 %d 1500 %d 4022:1", Fs, N, sw); fflush(stdout);
+      opus_encoder_ctl(e, OPUS_SET_DTX(1)); opus_encoder_ctl(e, OPUS_SET_COMPLEXITY(5)); opus_encoder_ctl(e, OPUS_SET_BITRATE(24000));
+      opus_encoder_ctl(e, OPUS_SET_BANDWIDTH(OPUS_BANDWIDTH_WIDEBAND)); opus_encoder_ctl(e, OPUS_SET_FORCE_CHANNELS(2));
+      for (i = 0; i < 110; i++) {
+         int loud = i < 30 || i >= 100, ret;
+         for (j = 0; j < N; j++) {
+            int nz; double v;
+            s = s * 1103515245u + 12345u; nz = (int)((s >> 16) % 7) - 3;
+            v = loud ? 9000 * sin(0.05 * j * (1 + 0.3 * sin(i * 0.7))) * (0.5 + 0.5 * sin(0.01 * j)) : 0;
+            pcm[2 * j] = (opus_int16)(v + nz); pcm[2 * j + 1] = (opus_int16)(0.7 * v - nz);
+         }
+         if (i == sw) opus_encoder_ctl(e, OPUS_SET_FORCE_CHANNELS(1));
+         ret = opus_encode(e, pcm, N, out, 1500);
+         if (ret < 0) printf(" e%d:0:0", ret); else printf(" %d:%d:%d", ret, out[0], ret > 1 ? out[1] : -1);
+      }
+      opus_encoder_destroy(e);
+      printf("\nO OK\n");
+   }
+}
+
 int main(int argc, char **argv)
 {
    vinstall_traps();
@@ -856,6 +898,14 @@ int main(int argc, char **argv)
    else if (argc >= 4 && !strcmp(argv[1], "chain")) run_chain(strtoull(argv[2], 0, 10), atol(argv[3]));
    else if (argc >= 3 && !strcmp(argv[1], "create")) run_create(atoi(argv[2]));
    else if (argc >= 2 && !strcmp(argv[1], "funcs")) run_funcs();
+   else if (argc >= 2 && !strcmp(argv[1], "honourdtx")) run_honourdtx();
+   else if (argc >= 3 && !strcmp(argv[1], "probe")) {
+      /* the two recorded read-back deviations (known findings), one history each */
+      vrng r; r.s = 7;
+      if (!strcmp(argv[2], "enc")) { static vop o[1]; o[0].kind = 's'; o[0].id = 4008; o[0].v = 1101; enc_run(48000, 2, 2049, o, 1, &r); }
+      else { static msop o[1]; static const unsigned char map[3] = {0, 1, 2}; o[0].kind = 's'; o[0].id = 4002; o[0].v = 64000;
+             msenc_run(48000, 3, 2, 1, map, 2049, o, 1, &r); }
+   }
    else if (argc >= 4 && !strcmp(argv[1], "honour")) run_honour(strtoull(argv[2], 0, 10), atol(argv[3]));
    else { fprintf(stderr, "usage: c11_ctl grid <level> | rand <seed> <n> | create <level> | funcs | honour <seed> <n>\n"); return 64; }
    fflush(stdout);
